@@ -523,6 +523,13 @@ class SigmaCorrelationRule(SigmaRuleBase, ProcessingItemTrackingMixin):
     ) -> Self:
         kwargs, errors = super().from_dict_common_params(rule, collect_errors, source)
         correlation_rule = rule.get("correlation", dict())
+        if not isinstance(correlation_rule, dict):
+            errors.append(
+                sigma_exceptions.SigmaCorrelationRuleError(
+                    "Sigma correlation definition must be a map", source=source
+                )
+            )
+            correlation_rule = dict()
 
         # Correlation type
         correlation_type = correlation_rule.get("type")
@@ -613,7 +620,11 @@ class SigmaCorrelationRule(SigmaRuleBase, ProcessingItemTrackingMixin):
         aliases = correlation_rule.get("aliases")
         if aliases is not None:
             if isinstance(aliases, dict):
-                aliases = SigmaCorrelationFieldAliases.from_dict(aliases)
+                try:
+                    aliases = SigmaCorrelationFieldAliases.from_dict(aliases)
+                except sigma_exceptions.SigmaCorrelationRuleError as e:
+                    errors.append(e)
+                    aliases = SigmaCorrelationFieldAliases()
             else:
                 errors.append(
                     sigma_exceptions.SigmaCorrelationRuleError(
@@ -625,12 +636,18 @@ class SigmaCorrelationRule(SigmaRuleBase, ProcessingItemTrackingMixin):
 
         # Condition - can be either a dict (basic condition) or a string (extended condition)
         condition_value = correlation_rule.get("condition")
-        condition: SigmaCorrelationCondition | SigmaExtendedCorrelationCondition
+        # placeholder used when the condition can't be parsed and errors are collected
+        condition: SigmaCorrelationCondition | SigmaExtendedCorrelationCondition = (
+            SigmaCorrelationCondition(SigmaCorrelationConditionOperator.GTE, 1, source=source)
+        )
 
         if condition_value is not None:
             if isinstance(condition_value, dict):
                 # Basic condition
-                condition = SigmaCorrelationCondition.from_dict(condition_value, source=source)
+                try:
+                    condition = SigmaCorrelationCondition.from_dict(condition_value, source=source)
+                except sigma_exceptions.SigmaCorrelationConditionError as e:
+                    errors.append(e)
             elif isinstance(condition_value, str):
                 # Extended condition - only valid for temporal types
                 if correlation_type not in (
